@@ -225,6 +225,22 @@ impl Scenario for Resv {
 /// manager assigned that piece and whose connection task is fetching it.
 pub fn reservation_backing(w: &World) -> Option<(&'static str, String)> {
     let snap = w.snap();
+    // whether a peer chokes us is decided by its Choke/Unchoke frames; the connection task sees them
+    // first and tells the manager: once the step is quiescent both must agree (a manager that
+    // believes a choking peer to be unchoking asks it for pieces it will never send)
+    if !w.manager_paused {
+        for k in 0..w.peers.len() {
+            let side = &w.peers[k];
+            if side.ended.get() {
+                continue;
+            }
+            if let (Some(mp), Some(h)) = (snap.peers.iter().find(|p| p.addr == side.cfg.addr), w.handler(k)) {
+                if mp.choked != h.choked {
+                    return Some(("manager-and-connection-task-disagree-on-choke", format!("peer {}: the connection task (which follows the peer's Choke/Unchoke frames) says choking us = {}, the manager says {}", k, h.choked, mp.choked)));
+                }
+            }
+        }
+    }
     for i in 0..snap.statuses.len() {
         if let Status::Reserved(n) = snap.statuses[i] {
             let mut backed = false;
@@ -236,7 +252,7 @@ pub fn reservation_backing(w: &World) -> Option<(&'static str, String)> {
                 match (mp, h) {
                     (Some(mp), Some(h)) => {
                         let fetching = h.piece_rx.as_ref().map(|rx| rx.piece_index == i).unwrap_or(false);
-                        if mp.piece_index == Some(i) && !mp.choked && fetching {
+                        if mp.piece_index == Some(i) && !mp.choked && !h.choked && fetching {
                             backed = true;
                         }
                         why.push(format!("peer {}: assigned {:?}, choking us {}, connection task fetching {:?}", k, mp.piece_index, mp.choked, h.piece_rx.as_ref().map(|rx| rx.piece_index)));
